@@ -20,7 +20,7 @@ SIZES = {"quick": dict(pairs=2000, cfgs=4), "thorough": dict(pairs=10000, cfgs=1
 def classes(rnd, n):
     out = []
     i = 0
-    pat = ["hair", "hair", "hair", "hair", "equal", "equal", "mid", "mid", "mid", "uniform", "near", "hair", "hair", "equal", "mid", "mid", "below", "hair", "hair", "near"]
+    pat = ["hair", "hair", "hair", "gamut", "equal", "equal", "mid", "mid", "gamut", "uniform", "near", "hair", "hair", "equal", "mid", "gamut", "below", "hair", "vivid", "near"]
     while len(out) < n:
         c = pat[i % len(pat)]
         i += 1
@@ -40,6 +40,12 @@ def classes(rnd, n):
             t = G.steer(G.lerp(b, G.uniform(rnd), 0.3), b, mn * rnd.uniform(0.4, 1.01), toward=end)
             if t:
                 out.append(("mid_light" if end == G.WHITE else "mid_dark", t, b))
+        elif c == "gamut":
+            g = G.gamut_surface(rnd)
+            if g:
+                out.append(("gamut_surface", g[0], g[1]))
+        elif c == "vivid":
+            out.extend(x for x in G.pair_classes(rnd, 20) if x[0] == "vivid_unfavoured")
         elif c == "uniform":
             out.append(("uniform", G.uniform(rnd), G.uniform(rnd)))
         elif c == "near":
@@ -58,6 +64,19 @@ def shards(tier, seed):
     cases = PW.build_cases(seed, "c02", z["pairs"], per_pair_configs=z["cfgs"], classes=classes)
     out = [{"kind": "pairs", "cases": c} for c in PW.chunk(cases, 64 if tier == "thorough" else 16)]
     out.append({"kind": "pairs", "cases": PW.same_string_cases(seed, "c02", n_bgs=6 if tier == "quick" else 24)})
+    # gamut-surface text just below a minimum, under the configurations where the search target equals the minimum
+    # (very_readable) as well as the ordinary ones: lightness-only and lightness+chroma candidates disagree most here
+    def gamut(rnd, n):
+        outc = []
+        while len(outc) < n:
+            g = G.gamut_surface(rnd, mn=rnd.choice([4.5, 4.5, 7.0, 3.0]))
+            if g:
+                outc.append(("gamut_surface", g[0], g[1]))
+        return outc
+    gc = PW.build_cases(seed, "c02gamut", 1600 if tier == "quick" else 16000, per_pair_configs=1, translucent_every=0, classes=gamut)
+    for i, c in enumerate(gc):
+        c["cfgs"] = [[i % 3, True, True], [(i + 1) % 3, False, True], [(i + 2) % 3, bool(i & 1), False]]
+    out += [{"kind": "pairs", "cases": c} for c in PW.chunk(gc, 16)]
     if tier == "thorough":
         out += [{"kind": "pairs", "cases": c} for c in PW.chunk(PW.lattice_cases(seed, "c02", "websafe", 1), 32)]
         out += [{"kind": "pairs", "cases": c} for c in PW.chunk(PW.lattice_cases(seed, "c02", "grey", 2), 16)]
